@@ -204,6 +204,7 @@ class LocalFn:
 PURE_METHODS = {
     str: {'join', 'upper', 'lower', 'index', 'find', 'count', 'startswith', 'endswith', 'replace', 'strip', 'split', 'translate', 'format', 'zfill'},
     collections.Counter: {'most_common', 'elements', 'total'},
+    bytes: {'strip', 'split', 'decode', 'startswith', 'endswith', 'rstrip', 'lstrip', 'replace'},
     dict: {'get', 'keys', 'values', 'items', 'copy'},
     list: {'index', 'count', 'copy'},
     tuple: {'index', 'count'},
@@ -609,7 +610,7 @@ class Evaluator:
                 if isinstance(recv, typ) and e.func.attr in names:
                     try:
                         r = getattr(recv, e.func.attr)(*args, **kwargs)
-                        if not isinstance(r, (str, int, float, bool, tuple, list, dict, set, frozenset, type(None))):
+                        if not isinstance(r, (str, bytes, int, float, bool, tuple, list, dict, set, frozenset, type(None))):
                             r = list(r)
                         return r
                     except Exception as ex:
@@ -775,6 +776,20 @@ def run_function(fdef, args, kwargs=None, env=None, budget=20000, call_hook=None
             if isinstance(s.value, ast.Constant):
                 return
             ev.ev(s.value, scope)
+        elif isinstance(s, ast.With):
+            # the context object is whatever the (modelled) constructor returns; leaving the block closes a modelled handle
+            opened = []
+            for it in s.items:
+                v = ev.ev(it.context_expr, scope)
+                opened.append(v)
+                if it.optional_vars is not None:
+                    ev.bind(it.optional_vars, v, scope)
+            try:
+                block(s.body)
+            finally:
+                for v in opened:
+                    if isinstance(v, dict) and 'open' in v and 'mode' in v:
+                        v['open'] = False
         else:
             raise Unfoldable(f'statement {type(s).__name__}')
     try:
